@@ -73,9 +73,25 @@ def burstLow (mode : String) (n r b pause : Nat) : Nat :=
   let ts := List.replicate n1 bucketBase ++ List.replicate (n - n1) (bucketBase + (pause : Int) * 1000000)
   (runBucket p (Bucket.new p goZeroTime) ts).2
 
+def optNat (s : String) : Option (Option Nat) := if s == "-" then some none else s.toNat?.map some
+
 /-! ### model -/
 
 def modelStep (st : St) : List String → St × String
+  -- `cfgburst <entry> <seq|conc> <n> <rateMilli|-> <burst|-> <pause_ms>`: the limiter that the real
+  -- config loader builds from a file with these settings ("-": not set)
+  | ["cfgburst", _, mode, n, r, b, pause] =>
+    match n.toNat?, optNat r, optNat b, pause.toNat? with
+    | some n, some r, some b, some pause =>
+      let cfg := KM.Gen.C14.limiterConfig
+      match effective cfg.defaultRateMilli cfg.clampRateMilli r, effective cfg.defaultBurst cfg.clampBurst b with
+      | some er, some eb => (st, s!"lo={burstLow mode n er eb pause} lim_burst={eb} lim_rate_milli={er}")
+      | _, _ => (st, "unknown-config-shape")
+    | _, _, _, _ => (st, "bad-op")
+  | ["clean", g] =>
+    match g.toInt? with
+    | some g => if g < 0 then (st, "bad-op") else ({ st with now := st.now + g * sec }, "clean")
+    | none => (st, "bad-op")
   | ["burst", _, mode, n, r, b, pause] =>
     match n.toNat?, r.toNat?, b.toNat?, pause.toNat? with
     | some n, some r, some b, some pause => (st, s!"lo={burstLow mode n r b pause}")
@@ -127,6 +143,11 @@ def bumpTotp (s : Totp) (now : Int) : Nat → Int
   | n + 1 => if tight s now then bumpTotp s (now + sec) n else now
 
 def planStep (st : St) : List String → St × String
+  | ["cfgburst", e, mode, n, r, b, pause] => (st, s!"cfgburst {e} {mode} {n} {r} {b} {pause}")
+  | ["clean", g] =>
+    match g.toInt? with
+    | some g' => if g' < 0 then (st, "bad-op") else ({ st with now := st.now + g' * sec }, s!"clean {g}")
+    | none => (st, "bad-op")
   | ["burst", e, mode, n, r, b, pause] => (st, s!"burst {e} {mode} {n} {r} {b} {pause}")
   | ["lim", r, b, m] =>
     match r.toNat?, b.toNat?, parseBool m with
@@ -203,6 +224,26 @@ def judgeStep (st : St) : List String → St × String
         (st', s!"viol admitted={cnt} bound={bucketBound st.p (t - first)} window_ns={t - first}")
       else (st', "ok")
     | _, _ => (st, "bad-op")
+  -- `cpw <configured rateMilli|-> <configured burst|-> <n> <backend> <r429> <bad> <elapsed_ns>`: a burst
+  -- against the limiter built by the real config loader, judged with the *configured* values (floor
+  -- 10 and 1/s); unset values are only checked for the accounting (defaults are the maintainers' choice)
+  | ["cpw", r, b, n, be, r429, bad, el] =>
+    match optNat r, optNat b, n.toNat?, be.toNat?, r429.toNat?, bad.toNat?, el.toInt? with
+    | some r, some b, some n, some be, some r429, some bad, some el =>
+      if bad != 0 then (st, s!"viol responses_not_429_without_backend_or_429_with_backend={bad}")
+      else if be + r429 != n then (st, s!"viol accounted={be + r429} of={n}")
+      else match r, b with
+        | some r, some b =>
+          let p : Limit := ⟨Spec.enforcedRateMilli r, Spec.enforcedBurst b⟩
+          if decide ((be : Int) > bucketBound p el) then
+            (st, s!"viol backend_calls={be} bound={bucketBound p el} configured_burst={b} configured_rate_milli={r} elapsed_ns={el}")
+          else (st, "ok")
+        | _, _ => (st, "ok")
+    | _, _, _, _, _, _, _ => (st, "bad-op")
+  | ["clean", g] =>
+    match g.toInt? with
+    | some g => if g < 0 then (st, "bad-op") else ({ st with now := st.now + g * sec }, "ok")
+    | none => (st, "bad-op")
   -- `pw <rateMilli> <burst> <n> <backend> <r429> <bad> <elapsed_ns>`: a burst through a real entry point
   | ["pw", r, b, n, be, r429, bad, el] =>
     match r.toNat?, b.toNat?, n.toNat?, be.toNat?, r429.toNat?, bad.toNat?, el.toInt? with
